@@ -853,6 +853,20 @@ MUTANTS = [
     M('top-up-by-value-threshold', U,
       "            labels[:] = 1 - label\n            labels[np.argsort(-p[:, label])[:self.n_points_min]] = label\n",
       "            p_min = np.partition(p[:, label], -self.n_points_min)[\n                -self.n_points_min]\n            labels = np.where(p[:, label] >= p_min, label, 1 - label)\n", 'C13'),
+    # ---------------- seeding round 6
+    M('kish-guard-all-finite', S, "            if not np.all(log_l == -np.inf):", "            if np.all(log_l > -np.inf):", 'C02'),
+    M('n-eff-plain-max', S,
+      "        sum_w = np.exp(self.shell_log_l + self.shell_log_v -\n                       np.nanmax(self.shell_log_l + self.shell_log_v))[select]",
+      "        shell_log_z = self.shell_log_l + self.shell_log_v\n        sum_w = np.exp(shell_log_z - np.amax(shell_log_z))[select]", 'C02'),
+    M('neural-bounds-see-unshifted-points', N,
+      "        if self.shift is not None:\n            points = self.shift.transform(points)\n        in_bound = self.outer_bound.contains(points)\n",
+      "        if self.shift is not None:\n            points_t = self.shift.transform(points)\n        else:\n            points_t = points\n        in_bound = self.outer_bound.contains(points_t)\n", 'C07 C08 C01'),
+    M('emulator-restores-fitted-attributes-only', NN,
+      "                if key.rsplit('_', 1)[1] == '{}'.format(i):\n                    setattr(network, key.rsplit('_', 1)[0], group.attrs[key])",
+      "                name, index = key.rsplit('_', 1)\n                if index == '{}'.format(i) and name.endswith('_'):\n                    setattr(network, name, group.attrs[key])", 'C09 C07 C08'),
+    M('union-points-written-for-unblocked-only', U,
+      "        for i, points in enumerate(self.points_bounds):\n            group.create_dataset('points_bound_{}'.format(i), data=points)",
+      "        for i, points in enumerate(self.points_bounds):\n            if not self.block[i]:\n                group.create_dataset('points_bound_{}'.format(i), data=points)", 'C09'),
     M('job-returns-the-caller', N,
       "        bound.sample(n_points=n_points, return_points=False)\n        return bound\n",
       "        bound.sample(n_points=n_points, return_points=False)\n        return self\n", 'C08 C03'),
@@ -914,6 +928,10 @@ BENIGN = [
       "        try:\n            pass\n        finally:\n            fstream.close()\n        os.replace(filepath_tmp, filepath)\n\n    def write_shell_update", ALL),
     M('periodic-presence-by-len', N, "        if periodic is not None:\n            bound.shift = PhaseShift.compute(",
       "        if periodic is not None and len(periodic) >= 0:\n            bound.shift = PhaseShift.compute(", ALL),
+    M('kish-guard-any-finite', S, "            if not np.all(log_l == -np.inf):", "            if np.any(log_l > -np.inf):", ALL),
+    M('emulator-restore-unpacked', NN,
+      "                if key.rsplit('_', 1)[1] == '{}'.format(i):\n                    setattr(network, key.rsplit('_', 1)[0], group.attrs[key])",
+      "                name, index = key.rsplit('_', 1)\n                if index == '{}'.format(i):\n                    setattr(network, name, group.attrs[key])", ALL),
     M('job-copy-renamed', N,
       "        bound = copy.deepcopy(self)\n        bound.reset(rng=rng)\n"
       "        bound.sample(n_points=n_points, return_points=False)\n        return bound\n",
